@@ -213,7 +213,7 @@ def run(tier, only=None):
         R.case([r["case"], i], True, sample=r["case"] if i % 37 == 0 else None, section="table")
         for sig in r["bad"]:
             R.violation(sig, {"case": r["case"]})
-    for r in check_exc(pmap(_random_job, range(80 if tier == "quick" else 800))):
+    for r in check_exc(pmap(_random_job, range(80 if tier == "quick" else 8000))):
         R.case(["random", r["k"]], True, sample=r["case"] if r["k"] % 31 == 0 else None, section="random")
         for sig in r["bad"]:
             R.violation(sig, {"k": r["k"], "case": r["case"]})
